@@ -21,6 +21,15 @@ def concHandlersP : List (String × PHandler) := [
       | [t, _, _] => some { model := [1, 0], specOk := true, cls := s!"threads={t}", relational := true }
       | _ => none,
     spec := fun _ impl => some (impl == [1, 0]) }),
+  -- conc17f <class> <max-degree> <threads> <round-seed> <opcount> => <digests-equal> <tsan-reports | 1000+signal>
+  -- (first-use round: a fresh process whose worker threads perform the first execution of every operation)
+  ("conc17f", {
+    run := fun a => match a with
+      | [c, _, t, _, _] =>
+        let name := if c == 0 then "unrolled(<=1024)" else if c == 1 then "static-table(1025..32768)" else "over-32768"
+        some { model := [1, 0], specOk := true, cls := s!"first-use {name} threads={t}", relational := true }
+      | _ => none,
+    spec := fun _ impl => some (impl == [1, 0]) }),
   -- conc18 <threads> <n0> <N> => <randombytes-calls> <tsan-reports> (<thread> <nonce> <unique>)*N
   ("conc18", {
     run := fun a => match a with
@@ -28,6 +37,18 @@ def concHandlersP : List (String × PHandler) := [
       | _ => none,
     spec := fun a impl => match a, impl with
       | [_, n0, n], seeds :: reports :: rest =>
+        match triples rest with
+        | some h => some (seeds == 1 && reports == 0 && h.length == n.toNat && Prng18.histOk n0.toNat h)
+        | none => none
+      | _, _ => none }),
+  -- conc18b <threads> <n0> <N> <bit> <whitebox> => … (as conc18): the burst straddles a multiple of 2^bit of the request counter
+  ("conc18b", {
+    run := fun a => match a with
+      | [t, _, _, b, w] =>
+        some { model := [1, 0], specOk := true, cls := s!"boundary 2^{b} {if w == 0 then "blackbox" else "whitebox"} threads={t}", relational := true }
+      | _ => none,
+    spec := fun a impl => match a, impl with
+      | [_, n0, n, _, _], seeds :: reports :: rest =>
         match triples rest with
         | some h => some (seeds == 1 && reports == 0 && h.length == n.toNat && Prng18.histOk n0.toNat h)
         | none => none
